@@ -14,7 +14,10 @@
 //! <https://www.jstor.org/stable/2007781>
 
 use std::cmp::min;
+#[cfg(not(yamaquasi_verif))]
 use std::sync::RwLock;
+#[cfg(yamaquasi_verif)]
+use simsync::sync::RwLock;
 
 use bnum::cast::CastFrom;
 
